@@ -373,7 +373,8 @@ include hC in
 theorem rt_qual (q : Qual) (h : SendableQual S q) :
     decQualifier C (encQual C.toCodec q) = .ok (wdQual C.toCodec q) := by
   obtain ⟨name, ty, val, p, o, ts, ti, tr⟩ := q
-  have hv : PlainVal S ty val := h
+  have hv : PlainVal S ty val := h.1
+  have hty : qualTypeOk ty = true := h.2
   have hA := allNames_encVal_plain C.toCodec S ty val hv
   rw [encQual_eq]
   unfold decQualifier
@@ -384,7 +385,8 @@ theorem rt_qual (q : Qual) (h : SendableQual S q) :
   simp only [bind_ok, qualAttrs_TYPE, qualAttrs_NAME, hu,
     boolAttrOf_false _ "PROPAGATED" p (qualAttrs_P ..), boolAttrOf_true _ "OVERRIDABLE" o (qualAttrs_O ..),
     boolAttrOf_true _ "TOSUBCLASS" ts (qualAttrs_TS ..), boolAttrOf_false _ "TOINSTANCE" ti (qualAttrs_TI ..),
-    boolAttrOf_false _ "TRANSLATABLE" tr (qualAttrs_TR ..), pure_eq_ok, wdQual]
+    boolAttrOf_false _ "TRANSLATABLE" tr (qualAttrs_TR ..), pure_eq_ok, wdQual, hty, Bool.not_true,
+    Bool.false_eq_true, if_false]
 
 theorem encQual_shape (q : Qual) : ∃ as ks, encQual C.toCodec q = .elem "QUALIFIER".toList as ks := by
   obtain ⟨name, ty, val, p, o, ts, ti, tr⟩ := q
@@ -452,11 +454,11 @@ variable (C : DecCodec) (S : Spec) (hC : CodecOk C S)
 
 theorem decParameter_plain (n : Str) (as) (ks : List Xml) (qs : List Qual) (hn : n = "PARAMETER".toList)
     (hc : checkNode (.elem n as ks) "PARAMETER" ["NAME", "TYPE"] [] (some ["QUALIFIER"]) false = .ok (as, ks))
-    (hq : decQualifiers C ks = .ok qs) :
+    (hq : decQualifiers C ks = .ok qs) (hty : cimTypeOk (getAttrD as "TYPE" "") = true) :
     decParameter C (.elem n as ks) =
       .ok (.mk (getAttrD as "NAME" "") (getAttrD as "TYPE" "") none false none (dictOfList Qual.name qs) .null none) := by
   simp only [decParameter]
-  simp only [if_pos hn, hc, bind_ok, hq, pure_eq_ok]
+  simp only [if_pos hn, hc, bind_ok, hq, pure_eq_ok, hty, Bool.not_true, Bool.false_eq_true, if_false]
 
 theorem decParameter_ref (n : Str) (as) (ks : List Xml) (qs : List Qual) (hn : n = "PARAMETER.REFERENCE".toList)
     (hc : checkNode (.elem n as ks) "PARAMETER.REFERENCE" ["NAME"] ["REFERENCECLASS"] (some ["QUALIFIER"]) false = .ok (as, ks))
@@ -471,13 +473,15 @@ theorem decParameter_ref (n : Str) (as) (ks : List Xml) (qs : List Qual) (hn : n
 theorem decParameter_array (n : Str) (as) (ks : List Xml) (qs : List Qual) (asz : Option Nat)
     (hn : n = "PARAMETER.ARRAY".toList)
     (hc : checkNode (.elem n as ks) "PARAMETER.ARRAY" ["NAME", "TYPE"] ["ARRAYSIZE"] (some ["QUALIFIER"]) false = .ok (as, ks))
-    (ha : arraySizeOf as = .ok asz) (hq : decQualifiers C ks = .ok qs) :
+    (ha : arraySizeOf as = .ok asz) (hq : decQualifiers C ks = .ok qs)
+    (hty : cimTypeOk (getAttrD as "TYPE" "") = true) :
     decParameter C (.elem n as ks) =
       .ok (.mk (getAttrD as "NAME" "") (getAttrD as "TYPE" "") none true asz (dictOfList Qual.name qs) .null none) := by
   have h1 : n ≠ "PARAMETER".toList := by rw [hn]; decide
   have h2 : n ≠ "PARAMETER.REFERENCE".toList := by rw [hn]; decide
   simp only [decParameter]
-  simp only [if_neg h1, if_neg h2, if_pos hn, hc, bind_ok, ha, hq, pure_eq_ok]
+  simp only [if_neg h1, if_neg h2, if_pos hn, hc, bind_ok, ha, hq, pure_eq_ok, hty, Bool.not_true,
+    Bool.false_eq_true, if_false]
 
 theorem decParameter_refarray (n : Str) (as) (ks : List Xml) (qs : List Qual) (asz : Option Nat)
     (hn : n = "PARAMETER.REFARRAY".toList)
@@ -501,7 +505,7 @@ include hC in
 theorem rt_param (p : Param) (h : SendableParam S p) :
     decParameter C (encParam C.toCodec p) = .ok (wdParam C.toCodec p) := by
   obtain ⟨name, ty, refCls, isArray, asz, quals, val, emb⟩ := p
-  obtain ⟨hq, hr, ha⟩ := h
+  obtain ⟨hq, hr, ha, hct⟩ := h
   have hql := rt_quals_list C S hC quals hq.1
   have hd := dictOfList_nodup Qual.name (wdQuals C.toCodec quals) (by rw [wdQuals_names]; exact hq.2)
   have hnt := noText_of_allNames (allNames_encQuals C quals)
@@ -534,10 +538,10 @@ theorem rt_param (p : Param) (h : SendableParam S p) :
         · exact keysIn_cons (by simp) (keysIn_cons (by simp) (keysIn_nil _))
       have hc := checkNode_ok_some "PARAMETER" _ (encQuals C.toCodec quals) _ _ _ false hk
         (kidsOk_encQuals C quals ["QUALIFIER"] (by simp)) (Or.inr hnt)
-      unfold E at hc ⊢
-      rw [decParameter_plain C _ _ _ _ rfl hc hql, hd]
       have e1 : getAttrD [("NAME".toList, name), ("TYPE".toList, ty)] "NAME" "" = name := by simp [getAttrD]
       have e2 : getAttrD [("NAME".toList, name), ("TYPE".toList, ty)] "TYPE" "" = ty := by simp [getAttrD]
+      unfold E at hc ⊢
+      rw [decParameter_plain C _ _ _ _ rfl hc hql (by rw [e2]; exact hct), hd]
       rw [e1, e2]
   | true =>
     by_cases hty : ty = "reference".toList
@@ -576,12 +580,12 @@ theorem rt_param (p : Param) (h : SendableParam S p) :
       have e3 : Xml.attr ([("NAME".toList, name), ("TYPE".toList, ty)] ++
           optAttr "ARRAYSIZE" (asz.map natToStr)) "ARRAYSIZE".toList = asz.map natToStr := by
         cases asz <;> simp [attr_append]
-      unfold E at hc ⊢
-      rw [decParameter_array C _ _ _ _ asz rfl hc (arraySizeOf_ok _ _ e3) hql, hd]
       have e1 : getAttrD ([("NAME".toList, name), ("TYPE".toList, ty)] ++
           optAttr "ARRAYSIZE" (asz.map natToStr)) "NAME" "" = name := by simp [getAttrD, attr_append]
       have e2 : getAttrD ([("NAME".toList, name), ("TYPE".toList, ty)] ++
           optAttr "ARRAYSIZE" (asz.map natToStr)) "TYPE" "" = ty := by simp [getAttrD, attr_append]
+      unfold E at hc ⊢
+      rw [decParameter_array C _ _ _ _ asz rfl hc (arraySizeOf_ok _ _ e3) hql (by rw [e2]; exact hct), hd]
       rw [e1, e2]
 
 theorem encParam_shape (p : Param) :
@@ -667,8 +671,15 @@ include hC in
 theorem rt_meth (m : Meth) (h : SendableMeth S m) :
     decMethod C (encMeth C.toCodec m) = .ok (wdMeth C.toCodec m) := by
   obtain ⟨name, retTy, params, origin, propagated, quals⟩ := m
-  obtain ⟨⟨c, cs, hrt⟩, hp, hq⟩ := h
+  obtain ⟨⟨rt, hrt, hct, hnr⟩, hp, hq⟩ := h
   subst hrt
+  obtain ⟨c, cs, rfl⟩ : ∃ c cs, rt = c :: cs := by
+    cases rt with
+    | nil => exact absurd hct (by decide)
+    | cons c cs => exact ⟨c, cs, rfl⟩
+  have hchk : (!cimTypeOk (c :: cs) || decide ((c :: cs) = "reference".toList)) = false := by
+    rw [hct, Bool.not_true, Bool.false_or]
+    exact decide_eq_false hnr
   have hAq := allNames_encQuals C quals
   have hAp := allNames_encParams C params
   have hA : AllNames (encQuals C.toCodec quals ++ encParams C.toCodec params)
@@ -684,7 +695,7 @@ theorem rt_meth (m : Meth) (h : SendableMeth S m) :
   obtain ⟨hqs, hqd⟩ := rt_quals' C S hC quals hq _ paramNames hAp (by simp [paramNames])
   have hpd := dictOfList_nodup Param.name (wdParams C.toCodec params) (by rw [wdParams_names]; exact hp.2)
   simp only [bind_ok, hps, hqs, boolAttrOf_false _ "PROPAGATED" propagated (methAttrs_P ..), methAttrs_TYPE,
-    methAttrs_ORIGIN, methAttrs_NAME, hqd, hpd, pure_eq_ok, wdMeth]
+    methAttrs_ORIGIN, methAttrs_NAME, hqd, hpd, pure_eq_ok, wdMeth, hchk, Bool.false_eq_true, if_false]
 
 theorem encMeth_shape (m : Meth) : ∃ as ks, encMeth C.toCodec m = .elem "METHOD".toList as ks := by
   obtain ⟨name, retTy, params, origin, propagated, quals⟩ := m
